@@ -149,8 +149,8 @@ def unary_binary(ctx):
         if not ok:
             continue
         check_result(ctx, r, what)
-        ctx.check("C08.unary.valid", np.array_equal(r.valid, valid), what=what,
-                  got=r.valid, expected=valid)
+        ctx.check("C08.unary.valid", np.array_equal(r.valid, f.valid), what=what,
+                  got=r.valid, expected=f.valid)
         flip_test(ctx, r, [f], what)
         ctx.event("unary." + name.split(":")[0])
     n = tuple(int(k) for k in spec.n)
@@ -187,7 +187,7 @@ def unary_binary(ctx):
         what = {"op": name, **base}
         r = fn(f)
         check_result(ctx, r, what)
-        ctx.check("C08.unary.valid", np.array_equal(r.valid, valid), what=what)
+        ctx.check("C08.unary.valid", np.array_equal(r.valid, f.valid), what=what)
         flip_test(ctx, r, [f], what)
 
 
@@ -273,7 +273,6 @@ def mapped(ctx):
                 continue
             what = {"op": name, "ndim": spec.nd, "nvdim": f.nvdim, "n": spec.n,
                     "dtype": sigk[1], "mask": sigk[0]}
-            d0 = core.field_digest(f)
             ok, r = ctx.expect_ok("C08.mapped.defined", op, f, what=what)
             ok2, mk = ctx.expect_ok("C08.mapped.defined", op, m, what={**what, "on": "marker"})
             if not (ok and ok2):
@@ -282,7 +281,6 @@ def mapped(ctx):
             ctx.check("C08.mapped.marker",
                       r.valid.shape == mask_of(mk).shape and np.array_equal(r.valid, mask_of(mk)),
                       what=what, got=r.valid, expected=mask_of(mk))
-            ctx.check("C08.mapped.operand_untouched", core.field_digest(f) == d0, what=what)
             flip_test(ctx, r, [f], what)
             ctx.event("mapped." + name.split(":")[0])
     finally:
@@ -333,8 +331,6 @@ def program(ctx):
             ctx.check("C08.program.marker",
                       cur.valid.shape == mask_of(m).shape and np.array_equal(cur.valid, mask_of(m)),
                       what=what, got=cur.valid, expected=mask_of(m))
-        ctx.check("C08.program.operands_untouched",
-                  all(core.field_digest(o) == d for o, d in originals), program=used)
     finally:
         shutil.rmtree(tmp, ignore_errors=True)
     ctx.sig(("program", spec.nd, f.nvdim, sigk[0], tuple(sorted(set(used)))),
